@@ -33,11 +33,25 @@ def enc(v):
     return ["s", str(v)]
 
 
+SMALL_ACT = ["relu", "tanh", "gelu"]
+SMALL_OPT = ["adam", "sgd", "rmsprop", "lion"]
+
+
 def build_problem(cfg):
     import ConfigSpace as cs
     from deephyper.hpo import HpProblem
 
     p = HpProblem()
+    if cfg.get("space") == "small":
+        # small ALL-DISCRETE space with string categories (3 x 4 x 2 = 24 points): candidate sets are full of
+        # duplicates and already-sampled points, and tuples of strings hash differently in every process
+        c = p.add_hyperparameter(SMALL_ACT, "cat")
+        p.add_hyperparameter(SMALL_OPT, "opt")
+        p.add_hyperparameter([1, 2], "ord")
+        if cfg.get("cond"):
+            d = p.add_hyperparameter(["x", "y"], "child")
+            p.add_condition(cs.EqualsCondition(d, c, "relu"))
+        return p
     p.add_hyperparameter((1, 64, "log-uniform"), "i_log")
     p.add_hyperparameter((-1.5, 2.5), "r")
     c = p.add_hyperparameter(["a", "b", "c"], "cat")
@@ -54,6 +68,14 @@ def build_problem(cfg):
 def objective(cfg, x):
     import math
 
+    if cfg.get("space") == "small":
+        v = {"relu": 0.0, "tanh": 0.5, "gelu": 0.1}[x["cat"]] + {"adam": 0.3, "sgd": 0.0, "rmsprop": -0.2, "lion": 0.3}[x["opt"]]
+        v += 0.25 * x["ord"] + (0.05 if x.get("child") == "y" else 0.0)
+        if cfg.get("fail") and x["opt"] == "sgd" and x["ord"] == 2:
+            return "F_k"
+        if cfg.get("nobj", 1) == 2:
+            return (v, 1.0 - v + 0.5 * x["ord"])
+        return v
     v = math.log(x["i_log"]) - x["r"] ** 2 + (1.0 if x["cat"] == "b" else 0.0) + x["ord"] / 8 + 0.05 * x["k"]
     if cfg.get("cond"):
         v += 0.1 * x.get("child", 0) + 0.3 * x.get("child2", 0.0)
@@ -62,6 +84,14 @@ def objective(cfg, x):
     if cfg.get("nobj", 1) == 2:
         return (v, -0.5 * v + x["r"])
     return v
+
+
+def seed_value(cfg):
+    """the integer seed, optionally as a NumPy integer type (cfg["seed_type"] = "int64", "int32", "uint32", ...)"""
+    import numpy as np
+
+    t = cfg.get("seed_type", "int")
+    return int(cfg["seed"]) if t == "int" else getattr(np, t)(cfg["seed"])
 
 
 class Job:
@@ -125,7 +155,7 @@ def main():
     kind = cfg["search"]
     try:
         ev = Evaluator.create(run, method="serial", method_kwargs={"num_workers": 1})
-        common = dict(random_state=cfg["seed"], log_dir=env["log_dir"])
+        common = dict(random_state=seed_value(cfg), log_dir=env["log_dir"])
         if kind == "CBO":
             kw = dict(
                 surrogate_model=cfg.get("sm", "ET"),
@@ -150,8 +180,11 @@ def main():
                 rs = np.random.RandomState(12345)
                 rows = []
                 for j in range(24):
-                    rows.append({"job_id": j, "p:i_log": int(rs.randint(1, 65)), "p:r": float(rs.uniform(-1.5, 2.5)),
-                                 "p:cat": ["a", "b", "c"][j % 3], "objective": float(rs.rand())})
+                    if cfg.get("space") == "small":
+                        rows.append({"job_id": j, "p:cat": SMALL_ACT[j % 3], "p:opt": SMALL_OPT[j % 4], "objective": float(rs.rand())})
+                    else:
+                        rows.append({"job_id": j, "p:i_log": int(rs.randint(1, 65)), "p:r": float(rs.uniform(-1.5, 2.5)),
+                                     "p:cat": ["a", "b", "c"][j % 3], "objective": float(rs.rand())})
                 s.fit_generative_model(pd.DataFrame(rows))
             if cfg.get("mode", "asktell") == "asktell":
                 s._setup_optimizer()
